@@ -60,6 +60,24 @@ def run_lines(exe, lines, timeout=900):
     return rc, o, err
 
 
+def run_lines_exact(exe, lines, timeout=900, missing="err no-answer"):
+    """like run_lines(...)[1], but always len(lines) answers, each belonging to its line: when the harness dies or runs into the time limit in the
+    middle, the line it was working on is answered `<missing> rc=<exit status>` and the remaining lines are given to a new process (answers that
+    silently shift by one line pair every later frame with the wrong input)"""
+    res, rest = [], list(lines)
+    while rest:
+        rc, out, err = zv.run([exe], "\n".join(rest) + "\n", timeout=timeout)
+        o = out.split("\n")
+        o = o[:-1]                      # what follows the last newline is empty or an unfinished answer
+        if len(o) >= len(rest):
+            res += o[:len(rest)]
+            break
+        res += o
+        res.append("%s rc=%s" % (missing, rc))
+        rest = rest[len(o) + 1:]
+    return res
+
+
 def model_lines(lines, timeout=1800):
     rc, out, err = zv.run([zv.driver_exe(), "dec"], "\n".join(lines) + "\n", timeout=timeout)
     if rc != 0:
